@@ -30,6 +30,7 @@ class Block:
         self.term = None              # raw terminator string
 
 
+CONST_RE = re.compile(r"^(?:const|static(?: mut)?) (.+?): (.+) = \{$")
 FN_RE = re.compile(r"^fn (.+?)\((.*)\) -> (.+) \{$")
 FN_RE_UNIT = re.compile(r"^fn (.+?)\((.*)\) \{$")
 
@@ -82,6 +83,11 @@ def parse_mir(text):
     pending = None
     for line in text.split("\n"):
         if cur is None:
+            cm = CONST_RE.match(line)
+            if cm:
+                cur = Fn(cm.group(1).strip(), [], cm.group(2).strip(), line)
+                cur.is_const = True
+                continue
             m = FN_RE.match(line) or FN_RE_UNIT.match(line)
             if m and not line.startswith(" "):
                 name = m.group(1).strip()
@@ -200,9 +206,12 @@ def _parse_place(s):
         else:
             p, r = _parse_place(inner)
             r = r.strip()
-            m2 = re.match(r"^\.(\d+): ", r)
+            m2 = re.match(r"^\.(\d+): (.*)$", r, re.S)
             m3 = re.match(r"^as (\w+)$", r)
-            if m2:
+            if m2 and re.match(r"^(std|core)::ptr::(Unique|NonNull)<", m2.group(2).strip()):
+                # Box internals (`(box.0: Unique<T>).0: NonNull<T>`): a Box is modelled as its referent
+                base = Place(p.local, p.proj)
+            elif m2:
                 base = Place(p.local, p.proj + (("field", int(m2.group(1))),))
             elif m3:
                 base = Place(p.local, p.proj + (("downcast", m3.group(1)),))
